@@ -119,15 +119,16 @@ class _MaxRequestBytesMiddleware:
                 return
         cl = req.content_length
         if cl is not None and cl > self._max_bytes:
-            self._raise_too_large(cl)
+            self._raise_too_large(req, cl)
         if cl is None:
             body = req.bounded_stream.read(self._max_bytes + 1)
             if len(body) > self._max_bytes:
-                self._raise_too_large(len(body))
+                self._raise_too_large(req, len(body))
             req.context.capped_request_body = body
 
-    def _raise_too_large(self, size: int) -> NoReturn:
-        """Raise Falcon's standardized 413 response."""
+    def _raise_too_large(self, req: falcon.Request, size: int) -> NoReturn:
+        """Raise Falcon's standardized 413 response (rendered as an Arrow IPC error stream)."""
+        req.context.vgi_rpc_request_rejected = True
         raise falcon.HTTPContentTooLarge(
             title="Request body exceeds max_request_bytes",
             description=(
@@ -562,6 +563,7 @@ class _CompressionMiddleware:
             # and is exactly what the client sent.
             _current_request_batch.set(decompressed)
         except DecompressionLimitExceeded as exc:
+            req.context.vgi_rpc_request_rejected = True
             raise falcon.HTTPContentTooLarge(
                 title="Request body exceeds max_request_bytes after decompression",
                 description=(
@@ -570,6 +572,7 @@ class _CompressionMiddleware:
                 ),
             ) from exc
         except Exception as exc:
+            req.context.vgi_rpc_request_rejected = True
             raise falcon.HTTPBadRequest(
                 title="Decompression Error",
                 description=f"Failed to decompress {req_enc.value} request body: {exc}",
